@@ -1,14 +1,14 @@
 (* C06 -- the eigenvalue-based sub-problem solver (treigen.solve):
    (1) More'-Sorensen sufficiency: a point satisfying the shifted system with a positive semidefinite shift is a global
        minimiser of the model over the ball (this is what the L2 predicate of the harness checks on the implementation);
-   (2) the hard-case branch AS WRITTEN (z = v[0], a row of the eigenvector matrix) returns a non-optimal point for a
-       non-symmetric orthogonal eigenbasis: explicit witness over R. *)
+   (2) the hard-case completion (after repo commit 5a997d7: z = v[:,0]) lands on the boundary and is optimal up to
+       2|tau| eps Delta, where eps = 1e-12*mean|sig| is the code's shift of the lowest eigenvalue. *)
 From Coq Require Import Reals Lra Lia List QArith Psatz Bool.
-From Interval Require Import Tactic.
 From OV.base Require Import Num.
 From OV.model Require Import M_C06_Vec M_C06_Treigen.
 From OV.proofs Require Import L_C06_Vec.
-From Coq Require Import ZArith Floats.PrimFloat.
+From Coq Require Import ZArith.
+From Coq Require Floats.PrimFloat.
 Import ListNotations.
 Local Open Scope R_scope.
 
@@ -70,65 +70,130 @@ Lemma ms_sufficiency_full : forall n (A : rvec -> rvec) (b p : rvec) lam Delta,
   forall s, len n s -> s ⋅ s <= Delta * Delta -> energyR A b p <= energyR A b s.
 Proof. intros n A b p lam Delta H1 H2 H3 _ H5 H6 H7 H8 _ H10. exact (ms_sufficiency n A b p lam Delta H1 H2 H3 H5 H6 H7 H8 H10). Qed.
 
-(* ------------------------------------------------------------------ the hard case as written *)
-Definition wA : list rvec := [[7/25; -24/25]; [-24/25; -7/25]].
-Definition wV : list rvec := [[3/5; -4/5]; [4/5; 3/5]].          (* columns (3/5,4/5), (-4/5,3/5): orthonormal eigenvectors *)
-Definition wsig : rvec := [-1; 1].
-Definition wb : rvec := [-4/5; 3/5].                              (* orthogonal to the lowest eigenvector (3/5,4/5) *)
-Definition ws : rvec := [6/5; 8/5].                               (* 2 * lowest eigenvector: inside the ball of radius 2 *)
-
-Lemma witness_is_eigendecomposition :
-  @matvec R NumR wA [3/5; 4/5] = rscale (-1) [3/5; 4/5] /\ @matvec R NumR wA [-4/5; 3/5] = rscale 1 [-4/5; 3/5] /\
-  [3/5; 4/5] ⋅ [3/5; 4/5] = 1 /\ [-4/5; 3/5] ⋅ [-4/5; 3/5] = 1 /\ [3/5; 4/5] ⋅ [-4/5; 3/5] = 0 /\
-  wb ⋅ [3/5; 4/5] = 0.
+(* ------------------------------------------------------------------ the hard case (as repaired in repo commit 5a997d7) *)
+(* the completed step lies on the boundary *)
+Lemma hard_case_on_boundary n (p z : rvec) Delta : len n p -> len n z -> z ⋅ z = 1 -> p ⋅ p < Delta * Delta ->
+  let x := @hard_case_step R NumR p z Delta in
+  len n x /\ x ⋅ x = Delta * Delta.
 Proof.
-  unfold wA, wb, matvec, vscale. cbn. unfold_num. q2r.
-  split; [f_equal; [field|f_equal; field]|]. split; [f_equal; [field|f_equal; field]|].
-  repeat split; field.
+  intros Hp Hz Hzz Hpp. cbv zeta. unfold hard_case_step. unfold_num. q2r.
+  set (pz := p ⋅ z). set (pp := p ⋅ p) in *. set (dd := Delta * Delta - pp).
+  assert (Hdd : 0 < dd) by (unfold dd; lra).
+  assert (Hrad : 0 < pz * pz + dd) by nra.
+  pose proof (sqrt_sqrt (pz * pz + dd) ltac:(lra)) as Hs. pose proof (sqrt_lt_R0 _ Hrad) as Hs0.
+  set (s := sqrt (pz * pz + dd)) in *.
+  assert (Hgt : Rabs pz < s).
+  { apply Rabs_def1; nra. }
+  split; [auto with vlen|].
+  rewrite (rdot_raxpy_self n) by assumption. fold pz pp. rewrite Hzz.
+  unfold Rltb. destruct (Rlt_dec pz 0) as [Hneg|Hpos].
+  - match goal with |- context [dd / ?D] => replace D with (pz - s) by ring end.
+    assert (Hd : pz - s <> 0) by (rewrite Rabs_left in Hgt by lra; lra).
+    assert (E : dd / (pz - s) = - (s + pz)). { apply Rmult_eq_reg_r with (pz - s); [|exact Hd]. unfold Rdiv. rewrite Rmult_assoc, Rinv_l by exact Hd. nra. }
+    rewrite E. unfold dd in *. nra.
+  - match goal with |- context [dd / ?D] => replace D with (pz + s) by ring end.
+    assert (Hd : pz + s <> 0) by lra.
+    assert (E : dd / (pz + s) = s - pz). { apply Rmult_eq_reg_r with (pz + s); [|exact Hd]. unfold Rdiv. rewrite Rmult_assoc, Rinv_l by exact Hd. nra. }
+    rewrite E. unfold dd in *. nra.
 Qed.
 
-Ltac split_cmp :=
-  match goal with
-  | |- context [Rltb ?a ?b] =>
-      let H := fresh "Hc" in destruct (Rltb a b) eqn:H; [apply Rltb_true in H | apply Rltb_false in H]
-  end.
+(* optimality of a point x = p + tau z on the boundary when p solves the shifted system and z is a unit eigenvector whose
+   shifted eigenvalue is eps >= 0 (the code uses lam = -minSig + eps with eps = 1e-12*mean|sig|):
+   x minimises the model over the ball up to 2*|tau|*eps*Delta; with eps = 0 (the exact hard case) it is a global minimiser. *)
+Section HardCase.
+  Variable n : nat.
+  Variable A : rvec -> rvec.
+  Variables (b p z : rvec) (lam eps tau Delta : R).
+  Hypothesis Alen : forall v, len n v -> len n (A v).
+  Hypothesis Alin : forall a k c, len n a -> len n c -> A (raxpy a k c) = raxpy (A a) k (A c).
+  Hypothesis Asym : forall a c, len n a -> len n c -> a ⋅ A c = A a ⋅ c.
+  Hypothesis blen : len n b.
+  Hypothesis plen : len n p.
+  Hypothesis zlen : len n z.
+  Hypothesis lam_nonneg : 0 <= lam.
+  Hypothesis eps_nonneg : 0 <= eps.
+  Hypothesis Delta_nonneg : 0 <= Delta.
+  Hypothesis shifted_system : forall w, len n w -> A p ⋅ w + lam * (p ⋅ w) = - (b ⋅ w).
+  Hypothesis shifted_psd : forall v, len n v -> 0 <= v ⋅ A v + lam * (v ⋅ v).
+  Hypothesis z_unit : z ⋅ z = 1.
+  Hypothesis z_eigen : forall w, len n w -> A z ⋅ w + lam * (z ⋅ w) = eps * (z ⋅ w).     (* (A + lam I) z = eps z *)
+  Let x := raxpy p tau z.
+  Hypothesis on_boundary : x ⋅ x = Delta * Delta.
 
-Theorem treigen_hard_case_refuted_R : forall fuel,
-  fst (@treigen_solve R NumR fuel wsig wV wb 2) = THard /\
-  ws ⋅ ws <= 2 * 2 /\
-  @tr_energy R NumR wA wb ws + 1 < @tr_energy R NumR wA wb (snd (@treigen_solve R NumR fuel wsig wV wb 2)).
-Proof.
-  intros fuel.
-  assert (Hws : ws ⋅ ws <= 2 * 2) by (unfold ws; cbn; unfold_num; q2r; lra).
-  cbv [treigen_solve matvec transpose_n vdiv vmap2 vshift vneg vnorm vmul vdot ndot map hd tl length vmean_abs nsum
-       hard_case_step vaxpy vadd vscale wsig wV wb c_1em12 nZ Z.of_nat Pos.of_succ_nat Pos.succ inject_Z tr_energy wA ws].
-  unfold nsign. unfold_num. q2r.
-  (* interior test: sig[0] > 0 fails *)
-  split_cmp; [exfalso; lra|]. cbn [andb].
-  (* minSig < eps *)
-  split_cmp; [|exfalso; revert Hc0; apply Rlt_not_le; interval].
-  (* the hard-case test passes *)
-  split_cmp; [|exfalso; revert Hc1; apply Rlt_not_le; interval with (i_prec 120)].
-  cbn [andb fst snd].
-  (* sign(pz) = 1 *)
-  split_cmp; [|exfalso; revert Hc2; apply Rlt_not_le; interval with (i_prec 120)].
-  split; [reflexivity|]. split; [exact Hws|].
-  interval with (i_prec 120).
-Qed.
+  Theorem hard_case_near_optimal s : len n s -> s ⋅ s <= Delta * Delta ->
+    energyR A b x <= energyR A b s + 2 * Rabs tau * eps * Delta.
+  Proof.
+    intros Hs Hball.
+    assert (Hx : len n x) by (unfold x; auto with vlen).
+    assert (He : len n (rsub s x)) by auto with vlen.
+    assert (Es : s = raxpy x 1 (rsub s x)) by (symmetry; apply raxpy_rsub_cancel; congruence).
+    set (e := rsub s x) in *.
+    assert (HAx := Alen x Hx). assert (HAe := Alen e He). assert (HAp := Alen p plen). assert (HAz := Alen z zlen).
+    assert (Ess : s ⋅ s = x ⋅ x + 2 * (x ⋅ e) + e ⋅ e).
+    { rewrite Es at 1 2. rewrite (rdot_raxpy_self n) by assumption. ring. }
+    assert (Een : energyR A b s = energyR A b x + (A x ⋅ e + b ⋅ e) + / 2 * (e ⋅ A e)).
+    { unfold energyR. rewrite Es at 1 2 3. rewrite Alin by assumption.
+      rewrite (rdot_raxpy_l n), !(rdot_raxpy_r n), (rdot_raxpy_l n) by auto with vlen.
+      rewrite (Asym x e), (rdot_comm e (A x)), (rdot_comm e b) by assumption. field. }
+    (* residual of the shifted system at x: (A + lam I) x + b = tau * eps * z *)
+    assert (Hres : A x ⋅ e + lam * (x ⋅ e) + b ⋅ e = tau * eps * (z ⋅ e)).
+    { unfold x. rewrite Alin by assumption. rewrite !(rdot_raxpy_l n) by auto with vlen.
+      pose proof (shifted_system e He). pose proof (z_eigen e He). nra. }
+    pose proof (shifted_psd e He) as Hpsd.
+    (* |z.e| <= 2 Delta *)
+    pose proof (rdot_cauchy_schwarz n z e zlen He) as Hcs. rewrite z_unit in Hcs.
+    assert (Hee : e ⋅ e <= 4 * (Delta * Delta)).
+    { pose proof (rdot_cauchy_schwarz n s x Hs Hx) as H1.
+      assert (Esx : e ⋅ e = s ⋅ s - 2 * (s ⋅ x) + x ⋅ x).
+      { unfold e. rewrite (rdot_rsub_l n), !(rdot_rsub_r n) by assumption. rewrite (rdot_comm x s). ring. }
+      rewrite Esx. rewrite on_boundary in *.
+      assert (Hsx : - (Delta * Delta) <= s ⋅ x).
+      { destruct (Rle_dec 0 (s ⋅ x)); [nra|].
+        assert ((s ⋅ x) * (s ⋅ x) <= (Delta * Delta) * (Delta * Delta)) by nra. nra. }
+      nra. }
+    assert (Hze : Rabs (z ⋅ e) <= 2 * Delta).
+    { apply Rsqr_le_abs_0_alt || idtac. 
+      assert ((z ⋅ e) * (z ⋅ e) <= (2 * Delta) * (2 * Delta)) by nra.
+      apply Rabs_le. split; nra. }
+    assert (Hterm : - (2 * Rabs tau * eps * Delta) <= tau * eps * (z ⋅ e)).
+    { assert (Rabs (tau * (z ⋅ e)) <= Rabs tau * (2 * Delta)).
+      { rewrite Rabs_mult. apply Rmult_le_compat_l; [apply Rabs_pos|exact Hze]. }
+      pose proof (Rle_abs (- (tau * (z ⋅ e)))) as H2. rewrite Rabs_Ropp in H2.
+      assert (- (Rabs tau * (2 * Delta)) <= tau * (z ⋅ e)) by lra.
+      replace (tau * eps * (z ⋅ e)) with (eps * (tau * (z ⋅ e))) by ring.
+      replace (2 * Rabs tau * eps * Delta) with (eps * (Rabs tau * (2 * Delta))) by ring. nra. }
+    assert (Hlam : lam * (s ⋅ s - x ⋅ x) <= 0) by (rewrite on_boundary; nra).
+    rewrite Een. nra.
+  Qed.
+End HardCase.
+
+Lemma hard_case_near_optimal_full : forall n (A : rvec -> rvec) (b p z : rvec) lam eps tau Delta,
+  (forall v, len n v -> len n (A v)) ->
+  (forall a k c, len n a -> len n c -> A (raxpy a k c) = raxpy (A a) k (A c)) ->
+  (forall a c, len n a -> len n c -> a ⋅ A c = A a ⋅ c) ->
+  len n b -> len n p -> len n z -> 0 <= lam -> 0 <= eps -> 0 <= Delta ->
+  (forall w, len n w -> A p ⋅ w + lam * (p ⋅ w) = - (b ⋅ w)) ->
+  (forall v, len n v -> 0 <= v ⋅ A v + lam * (v ⋅ v)) ->
+  z ⋅ z = 1 ->
+  (forall w, len n w -> A z ⋅ w + lam * (z ⋅ w) = eps * (z ⋅ w)) ->
+  raxpy p tau z ⋅ raxpy p tau z = Delta * Delta ->
+  forall s, len n s -> s ⋅ s <= Delta * Delta ->
+  energyR A b (raxpy p tau z) <= energyR A b s + 2 * Rabs tau * eps * Delta.
+Proof. intros n A b p z lam eps tau Delta H1 H2 H3 H4 H5 H6 H7 H8 H9 H10 H11 H12 H13 H14 s Hs Hb. eapply (hard_case_near_optimal n A b p z lam eps tau Delta); eassumption. Qed.
 
 (* ------------------------------------------------------------------ zero Hessian: the binary64 model returns NaN (finding F2b).
    A statement about the PrimFloat instance (the one executed against the implementation); over R division by zero is total. *)
 Lemma treigen_zero_hessian_nan_binary64 :
-  let res := @treigen_solve float NumF 50 [F 0 0] [[F 1 0]] [F 1 0] (F 2 0) in
+  let res := @treigen_solve PrimFloat.float NumF 50 [F 0 0] [[F 1 0]] [F 1 0] (F 2 0) in
   (match fst res with TSecular _ => true | _ => false end = true) /\ fencs (snd res) = [0; 7777]%Z.
 Proof. vm_compute. split; reflexivity. Qed.
 
 (* ------------------------------------------------------------------ the uncapped secular `while` can stall (finding F2c): for
    sig = (-3,-3), b = (1/2, 1/8), Delta = 2^23 the binary64 iteration reaches a value of lam whose Newton correction is below
    its resolution while |bError| > 1e-9 -- one more pass returns the same state, so no amount of fuel terminates it. *)
-Definition stall_sig : list float := [F (-3) 0; F (-3) 0].
-Definition stall_b : list float := [F 1 (-1); F 1 (-3)].
-Definition stall_Delta : float := F 1 23.
+Definition stall_sig : list PrimFloat.float := [F (-3) 0; F (-3) 0].
+Definition stall_b : list PrimFloat.float := [F 1 (-1); F 1 (-3)].
+Definition stall_Delta : PrimFloat.float := F 1 23.
 Lemma treigen_secular_stalls_binary64 :
-  fst (@treigen_solve float NumF 400 stall_sig [[F 1 0; F 0 0]; [F 0 0; F 1 0]] stall_b stall_Delta) = TOutOfFuel.
+  fst (@treigen_solve PrimFloat.float NumF 400 stall_sig [[F 1 0; F 0 0]; [F 0 0; F 1 0]] stall_b stall_Delta) = TOutOfFuel.
 Proof. vm_compute. reflexivity. Qed.
